@@ -73,6 +73,7 @@ func buildFork(cs caseSpec, thorough bool) *Scenario {
 	sc := g.GenFork(cs.NewState, p)
 	sc.Warm = r.Bool()
 	sc.Restart = r.Chance(1, 3)
+	sc.FailedOps = r.Chance(1, 3)
 	// restarts of node A: a quarter of the positions (before each RevertHead, before the first
 	// Store of a fork, before the comparisons), killed or shut down gracefully
 	if r.Chance(2, 3) {
@@ -292,6 +293,7 @@ func buildCase(cs caseSpec, thorough bool) *Scenario {
 		for _, d := range directedScenarios {
 			if d.name == cs.Name {
 				sc = d.mk(cs.NewState)
+				sc.FailedOps = cs.Case%3 == 1
 				sc.RestartMode = cs.Case % 3 // variant: no restart / killed / graceful before the first revert
 			}
 		}
@@ -307,6 +309,7 @@ func buildCase(cs caseSpec, thorough bool) *Scenario {
 			sc.RestartMode = []int{0, 1, 1, 0, 1, 2}[(cs.Case/2)%6]
 			sc.LightModel = cs.Case%4 != 0
 			sc.SmallUniverse = true
+			sc.FailedOps = cs.Case%5 == 0
 		}
 	case "window":
 		// no in-place restart of A here: a fresh Blockchain instance has an empty filter cache and
@@ -488,6 +491,14 @@ func shrink(sc *Scenario, sig string, opt lib.GenOptions, budget int) *Scenario 
 				continue
 			}
 		}
+		if best.FailedOps {
+			c := cloneScenario(best)
+			c.FailedOps = false
+			if try(c) {
+				progress = true
+				continue
+			}
+		}
 		if best.Warm || best.Restart {
 			c := cloneScenario(best)
 			c.Warm, c.Restart = false, false
@@ -540,7 +551,7 @@ func scenarioText(sc *Scenario) map[string]any {
 	if len(main) > 24 {
 		main = append([]string{fmt.Sprintf("... %d earlier blocks ...", len(main)-24)}, main[len(main)-24:]...)
 	}
-	return map[string]any{"main_chain": main, "rounds": rounds, "event_queries_before_revert": sc.Warm, "restart_compared": sc.Restart,
+	return map[string]any{"main_chain": main, "rounds": rounds, "failed_operations_offered_to_A": sc.FailedOps, "event_queries_before_revert": sc.Warm, "restart_compared": sc.Restart,
 		"restart_plan_of_A": sc.RestartPlan, "restart_mode_of_A": sc.RestartMode}
 }
 
